@@ -162,7 +162,7 @@ def s_to_c(ctx: Ctx):
     for pi, p in enumerate(paths):
         beh = [("Init", None, nodes[inits[0]])] + [(edges[k][1], None, nodes[edges[k][2]]) for k in p]
         ops = behaviour_to_ops(beh)
-        conc = CONCS[pi % 4]
+        conc = CONCS[pi % len(CONCS)]
         nrep += 1
         ctx.distinct.add(("path", pi))
         if not replay_ops(ctx, ops, conc, f"edge-cover path {pi}", deep=False) and len(ctx.violations) > 10:
@@ -195,27 +195,49 @@ def s_to_c(ctx: Ctx):
 # ------------------------------------------------------------------ C -> S
 
 def random_history(rng, conc, nops=40, maxev=15):
-    """Drive the real list with a seeded random history; record events in spec vocabulary."""
+    """Drive the real list with a seeded random history; record events in spec vocabulary.
+    Histories run in phases (fill / churn / drain) so that heaps of depth 3-4 are built and
+    interior removals are followed by further adds and pops."""
     d = ELDriver(conc)
     tr = []
     pending = set()      # harness bookkeeping ONLY to avoid double adds (stated assumption)
-    ntimes = rng.choice([2, 3, 5])
+    ntimes = rng.choice([2, 3, 5, 9, 40])
     prios = rng.choice([[5], [1, 5], [1, 5, 10]])
-    for _ in range(nops):
+    phase_plan = rng.choice([["mix"], ["fill", "churn", "drain"], ["fill", "churn", "fill", "churn"]])
+    per = max(1, nops // len(phase_plan))
+    for step in range(nops):
+        phase = phase_plan[min(step // per, len(phase_plan) - 1)]
         n = len(d.events)
         choices = []
-        if n < maxev:
-            choices += ["Create"] * 3
         notp = [e for e in range(1, n + 1) if e not in pending]
-        if notp:
-            choices += ["Add"] * 6
-        if pending:
-            choices += ["RemoveIn"] * 4 + ["PopFirst"] * 4
-        if n:
-            choices += ["RemoveAny", "Contains", "Cmp"]
-        choices += ["PeekFirst", "Size", "IsEmpty", "Drain", "PopFirst"]
-        if rng.random() < 0.03:
-            choices = ["Clear"]
+        if phase == "fill":
+            if n < maxev:
+                choices += ["Create"] * 4
+            if notp:
+                choices += ["Add"] * 8
+            choices += ["PeekFirst"]
+        elif phase == "churn":
+            if pending:
+                choices += ["RemoveIn"] * 6 + ["PopFirst"] * 2 + ["Drain"] * 3
+            if notp:
+                choices += ["Add"] * 4
+            if n:
+                choices += ["Cmp", "Contains"]
+            choices += ["Size"]
+        elif phase == "drain":
+            choices += ["PopFirst"] * 5 + ["Drain", "IsEmpty", "PeekFirst"]
+        else:
+            if n < maxev:
+                choices += ["Create"] * 3
+            if notp:
+                choices += ["Add"] * 6
+            if pending:
+                choices += ["RemoveIn"] * 4 + ["PopFirst"] * 4
+            if n:
+                choices += ["RemoveAny", "Contains", "Cmp"]
+            choices += ["PeekFirst", "Size", "IsEmpty", "Drain", "PopFirst"]
+            if rng.random() < 0.03:
+                choices = ["Clear"]
         c = rng.choice(choices)
         if c == "Create":
             k, p = rng.randrange(ntimes), rng.choice(prios)
@@ -246,6 +268,10 @@ def random_history(rng, conc, nops=40, maxev=15):
             x, y = rng.randrange(1, n + 1), rng.randrange(1, n + 1)
             tr.append(dict({"a": "Cmp", "x": x, "y": y}, **d.cmp_ops(x, y)))
     tr.append({"a": "Drain", "seq": d.drain_copy()})
+    n = len(d.events)
+    for _ in range(min(8, n * n)):
+        x, y = rng.randrange(1, n + 1), rng.randrange(1, n + 1)
+        tr.append(dict({"a": "Cmp", "x": x, "y": y}, **d.cmp_ops(x, y)))
     return tr
 
 
@@ -253,7 +279,7 @@ def c_to_s(ctx: Ctx):
     n = ctx.pick(1200, 12000)
     trs = []
     for i in range(n):
-        trs.append(random_history(ctx.rng, CONCS[i % 4], nops=ctx.rng.choice([25, 40, 60])))
+        trs.append(random_history(ctx.rng, CONCS[i % len(CONCS)], nops=ctx.rng.choice([25, 40, 60])))
     rej, st = traces.validate("TraceEventList", "TraceEventList.cfg", trs, timeout=1500)
     ctx.states += st["distinct"]; ctx.transitions += st["generated"]
     ctx.tlc_runs.append({"model": "TraceEventList (batch)", **{k: (round(v, 2) if isinstance(v, float) else v) for k, v in st.items()}})
@@ -264,9 +290,9 @@ def c_to_s(ctx: Ctx):
     ctx.sample({"kind": "C->S recorded trace (prefix)", "events": trs[0][:12]})
     for r in rej:
         ev = r.event or {}
-        ctx.violation(f"trace|{ev.get('a')}", f"recorded history {r.index} ({CONCS[r.index % 4]} times): events 1..{r.upto} are a behaviour of EventList.tla, "
+        ctx.violation(f"trace|{ev.get('a')}", f"recorded history {r.index} ({CONCS[r.index % len(CONCS)]} times): events 1..{r.upto} are a behaviour of EventList.tla, "
                       f"event {r.upto + 1} {ev} is not (invariant={getattr(r, 'invariant', None)})",
-                      {"trace": r.trace, "explained": r.upto, "conc": CONCS[r.index % 4]})
+                      {"trace": r.trace, "explained": r.upto, "conc": CONCS[r.index % len(CONCS)]})
     # binding self-test: corrupt one logged result in an accepted trace -> must be rejected
     good = [t for i, t in enumerate(trs) if i not in {r.index for r in rej}]
     bad = []
